@@ -83,6 +83,9 @@ class RSABinding(CryptographyBinding):
 
     @staticmethod
     def import_public_key(obj: RSADictKey) -> RSAPublicKey:
+        for prop in ("p", "q", "dp", "dq", "qi", "oth"):
+            if prop in obj:
+                raise ValueError(f'RSA key must include "d" if the private parameter "{prop}" is present')
         numbers = RSAPublicNumbers(base64_to_int(obj["e"]), base64_to_int(obj["n"]))
         return numbers.public_key(default_backend())
 
